@@ -43,12 +43,13 @@ class C11(Check):
               "the function's __name__ is non-injective; the emitted builder call refers to the name actually registered",
         "K5": "no non-injective memoisation on the translation path: a module-level table or cache in the translator / generator that "
               "is keyed by a function's name, qualified name or module (instead of the function object) makes distinct functions share one entry",
+        "K6": "each component is translated from its own (function, argument list) pair, unmodified and in order",
         "K2": "template <-> API agreement: every builder / constructor call in the emitted text uses only keyword names that the real "
               "signature in model.py / types.py has, and the emitted header imports every constructor the templates use",
         "K3": "an untranslatable function makes generation raise",
         "K4": "all four component kinds (variables, parameters, derived quantities, reactions) are translated and emitted, unfiltered",
     }
-    floors = {"K1": 7, "K2": 6, "K3": 1, "K4": 8, "K5": 2}
+    floors = {"K1": 7, "K2": 6, "K3": 1, "K4": 8, "K5": 2, "K6": 4}
     decided = [
         "two different functions can never be emitted under one name; a component always refers to its own definition",
         "the generated source calls the builder API with keywords that exist; its header imports what it uses",
@@ -258,6 +259,17 @@ class C11(Check):
                 self.holds("K3", MOD, conv.name, "untranslatable-raises", c, "None -> raise ValueError")
             else:
                 self.violated("K3", MOD, conv.name, "untranslatable-raises", c, "a failed translation does not raise", witness="the generated source contains `return None`")
+        # ---- K6
+        rep6 = mod.func("_to_symbolic_repr")
+        for c in [c for c in walk_no_nested(rep6) if isinstance(c, ast.Call) and norm(c.func) == "_fn_to_symbolic_repr"]:
+            a = [norm(x) for x in c.args]
+            obj = a[1].rsplit(".", 1)[0] if len(a) == 3 and a[1].endswith(".fn") else None
+            if obj and a[2] == f"{obj}.args":
+                self.holds("K6", MOD, rep6.name, f"own-fn-and-args {obj}@{c.lineno - rep6.lineno}", c, f"translated from ({obj}.fn, {obj}.args)")
+            else:
+                self.violated("K6", MOD, rep6.name, f"own-fn-and-args {a[1] if len(a) > 1 else '?'}@{c.lineno - rep6.lineno}", c,
+                              f"`{norm(c)[:80]}` does not translate the component from its own function with its own argument list in order",
+                              witness="a two-argument derived quantity is rebuilt with its arguments exchanged")
         # ---- K4
         rep = mod.func("_to_symbolic_repr")
         for kind, getter in (("variables", "model.get_raw_variables().items()"), ("parameters", "model.get_raw_parameters().items()"),
@@ -288,6 +300,7 @@ class C11(Check):
             Variant("separate-init-table", MOD, GEN, "variable_source.append(_codegen_variable(k, var, functions=functions))", "variable_source.append(_codegen_variable(k, var, functions=init_functions))", expect="K1|", quick=True),
             Variant("parse-cache-by-qualname", "meta/source_tools.py", "", "def fn_to_sympy(", "_FN_DEF_CACHE: dict = {}\n\n\ndef _get_fn_ast_cached(fn):\n    key = (str(getattr(fn, '__module__', '')), str(getattr(fn, '__qualname__', fn)))\n    if (fn_def := _FN_DEF_CACHE.get(key)) is None:\n        fn_def = _FN_DEF_CACHE[key] = get_fn_ast(fn)\n    return fn_def\n\n\ndef fn_to_sympy(", expect="K5|", quick=True),
             Variant("coefficient-args-reversed", MOD, GEN, "args={stoich.args!r}", "args={stoich.args[::-1]!r}", expect="K1|"),
+            Variant("derived-args-sorted", MOD, "_to_symbolic_repr", "sym.derived[k] = _fn_to_symbolic_repr(k, der.fn, der.args)", "sym.derived[k] = _fn_to_symbolic_repr(k, der.fn, sorted(der.args))", expect="K6|"),
             Variant("reaction-uses-unregistered-name", MOD, GEN, "fn={rxn_fn_name}", "fn={fn.fn_name}", expect="K1|"),
             Variant("value-keyword-again", MOD, "_codegen_variable", "initial_value={value}, unit=", "value={value}, unit=", expect="K2|", quick=True),
             Variant("derived-keyword-typo", MOD, GEN, "fn={fn_name},\\n                args={fn.args},\\n            )')", "function={fn_name},\\n                args={fn.args},\\n            )')", expect="K2|"),
